@@ -209,7 +209,9 @@ def verify_unit(repo, verif, unit, build_dir, rlimit=30, seed=None, canary=True)
         json.dump([o for _, o in pairs], f)
     log_dir = os.path.join(build_dir, unit + ".log")
     shutil.rmtree(log_dir, ignore_errors=True)
-    cmd, out, err, rc, wall = run_verus(gen, log_dir=log_dir, rlimit=rlimit, seed=seed)
+    cmd, out, err, rc, wall = run_verus(gen, log_dir=log_dir, rlimit=rlimit, seed=seed, extra=asm.verus_args)
+    if asm.verus_args:
+        res.trusted = res.trusted + ['verus flag: ' + a for a in asm.verus_args]
     res.raw = err
     res.cmd = " ".join(cmd)
     _interpret(res, asm, pairs, out, err, rc, unit)
@@ -224,7 +226,7 @@ def verify_unit(repo, verif, unit, build_dir, rlimit=30, seed=None, canary=True)
     if canary and res.status != "undecided":
         try:
             casm, cpairs, cgen = assemble_unit(repo, verif, unit, build_dir, canary=True)
-            ccmd, cout, cerr, crc, cwall = run_verus(cgen, rlimit=rlimit)
+            ccmd, cout, cerr, crc, cwall = run_verus(cgen, rlimit=rlimit, extra=casm.verus_args)
             clines = {i + 1: o[1] for i, (l, o) in enumerate(cpairs) if o[0] == "canary"}
             failed = set()
             for d in parse_diags(cerr):
